@@ -18,6 +18,9 @@ Decision paths are *CFG paths* (every switch decision on the way, not only the d
 decisions hold" is exact; boolean private helpers, closures and Option combinators inside a decision are expanded into
 their own decision paths (a DNF) with the arguments substituted.  The accumulator of a loop is an opaque symbol ACC,
 the visited element ITEM; `unwrap(ACC)` is the accumulator's payload in every spelling.
+
+Also here: `text_parts` (format! / push_str / helper -> one list of text pieces) and `ResultPaths` / `result_paths`
+(the Ok / Err outcomes of a fallible function as decision paths, independent of `?` / combinators / match / helpers).
 """
 from .lib.mir import op_place
 from .lib.value import Slicer, subst, canon, walk, vstr
@@ -453,6 +456,28 @@ class Engine:
             md.init_none = True
             k = self.sl.apply_closure(strip(args[1]), (ITEM,))
             md.key = self.reduce(k) if k is not None else None
+        elif name == IT + 'max_by' and len(args) == 2:
+            # std: max_by(compare) = reduce(|acc, item| match compare(&acc, &item) { Greater => acc, _ => item }):
+            # the comparator's decision paths and the Ordering it returns become the step table
+            md.kind = 'table'
+            md.init_none = True
+            clv = strip(args[1])
+            g = self.prog.fns.get(clv[1]) if clv[0] == 'closure' else None
+            accv = ('unwrap', ACC)
+            if g is None:
+                md.problems.append('comparator is not a closure')
+            else:
+                md.fns.append(g)
+                m = {(g.path, 1): accv, (g.path, 2): ITEM}
+                for i, uv in enumerate(clv[2]):
+                    m[('upvar', g.path, i)] = uv
+                some = ('acc', frozenset(('Some',)))
+                for case, rv in self.fn_vpaths(g, m, 0):
+                    for outs, pick in ((('Greater',), 'acc'), (('Less', 'Equal'), 'item')):
+                        for extra in self.expand_atom(('variant', strip(rv), ORD, frozenset(outs)), 0):
+                            step, other = self._split(case + extra)
+                            md.spaths.append((pick, [some] + step, other))
+                md.spaths.append(('item', [('acc', frozenset(('None',)))], []))
         elif name in (IT + 'fold', IT + 'reduce') and len(args) == (3 if name == IT + 'fold' else 2):
             md.kind = 'table'
             clv = strip(args[-1])
@@ -714,3 +739,196 @@ def expected_table(universe, equal_keeps_acc=False):
 
 def table_str(t):
     return ', '.join('%s/%s->%s' % (a, o, '|'.join(sorted(p)) or '-') for (a, o), p in sorted(t.items()))
+
+
+# ---- text normal form ------------------------------------------------------------------------------------------
+def text_parts(sl, v, depth=0):
+    """the pieces a string value is put together from, in order: literal text as str (adjacent literals merged),
+    everything else as a value.  `format!("{}:{}", a, b)`, `String::new()` + push_str / push, and a private helper
+    doing either (inline_deep) give the same list; a value that is not a concatenation is the single piece [v]"""
+    from .lib.value import concat_parts
+    v = strip(v)
+    raw = [v]
+    if depth <= 4:
+        if v[0] == 'fmt':
+            raw = []
+            for p in v[1]:
+                raw.extend([p] if isinstance(p, str) else text_parts(sl, p, depth + 1))
+        elif v[0] == 'concat':
+            raw = []
+            for p in concat_parts(v):
+                raw.extend(text_parts(sl, p, depth + 1))
+    out = []
+    for p in raw:
+        if isinstance(p, tuple) and p[0] == 'const' and isinstance(p[1], str):
+            p = p[1]
+        if isinstance(p, str) and out and isinstance(out[-1], str):
+            out[-1] += p
+        elif p != '':
+            out.append(p)
+    return out
+
+
+# ---- result paths ----------------------------------------------------------------------------------------------
+RES = 'std::result::Result'
+BRANCH = 'std::ops::Try::branch'
+
+
+class ResultPaths(Engine):
+    """The outcomes of a Result / Option valued function as decision paths in the entry function's terms:
+        [(decisions, 'ok' | 'err', payload)]
+    The same list is obtained whether the function is written with `?`, with and_then / map / map_err / ok_or
+    combinators and closures, with `match` / let-else, or split into private helpers that are tail-called, called
+    under `?` or handed to a combinator: every such step is expanded into the decisions taken inside it with the
+    arguments substituted.  A result that cannot be looked into (std / foreign call, trait method) is a primitive
+    decision ('res', value, 'ok' | 'err') with payload unwrap(value) / unwrap_err(value)."""
+
+    def opaque(self, v):
+        c = canon(v)
+        return [([('res', c, 'ok', v)], 'ok', self.sl.mk_unwrap(v)), ([('res', c, 'err', v)], 'err', ('unwrap_err', v))]
+
+    def expand_result(self, v, depth=0):
+        r = self._expand_result(v, depth) if depth <= 8 else None
+        return self.opaque(v) if r is None else r
+
+    def _expand_result(self, v, depth):
+        while v[0] == 'updated':
+            v = v[1]
+        if v[0] == 'agg' and (v[1] or '') in (RES, OPT):
+            if v[2] in ('Ok', 'Some') and len(v[3]) == 1:
+                p = v[3][0][1]
+                if p[0] == 'unwrap':
+                    # Ok(helper(..)?): the helper's own successful outcomes
+                    inner = self._expand_result(p[1], depth + 1)
+                    if inner is not None:
+                        return [(a, k, q) for a, k, q in inner if k == 'ok']
+                return [([], 'ok', p)]
+            if v[2] in ('Err', 'None'):
+                return [([], 'err', v[3][0][1] if v[3] else None)]
+            return None
+        if v[0] != 'call':
+            return None
+        name, args = v[1], v[2]
+        if name.endswith('FromResidual::from_residual') and len(args) == 1 and args[0][0] == 'residual':
+            return [r for r in self.expand_result(args[0][1], depth + 1) if r[1] == 'err']
+        isres, isopt = name.startswith('std::result::Result::<'), name.startswith('std::option::Option::<')
+        if (isres or isopt) and args:
+            meth = name.rsplit('::', 1)[-1]
+            if meth == 'and_then' and len(args) == 2:
+                out = []
+                for a, k, p in self.expand_result(args[0], depth + 1):
+                    if k == 'err':
+                        out.append((a, k, p))
+                        continue
+                    for a2, k2, p2 in self.apply_r(args[1], p, depth + 1):
+                        out.append((a + a2, k2, p2))
+                return out
+            if meth == 'map' and len(args) == 2:
+                return [(a, k, self.apply_v(args[1], (p,)) if k == 'ok' else p) for a, k, p in self.expand_result(args[0], depth + 1)]
+            if meth == 'map_err' and isres and len(args) == 2:
+                return [(a, k, self.apply_v(args[1], (p,)) if k == 'err' else p) for a, k, p in self.expand_result(args[0], depth + 1)]
+            if meth == 'ok_or' and isopt and len(args) == 2:
+                return [(a, k, p if k == 'ok' else args[1]) for a, k, p in self.expand_result(args[0], depth + 1)]
+            if meth == 'ok_or_else' and isopt and len(args) == 2:
+                return [(a, k, p if k == 'ok' else self.apply_v(args[1], ())) for a, k, p in self.expand_result(args[0], depth + 1)]
+            if meth in ('inspect', 'inspect_err') and len(args) == 2:
+                return self.expand_result(args[0], depth + 1)
+            return None
+        g = self.prog.fns.get(name)
+        if g is not None and g.kind != 'Closure' and not g.impl_trait and g.blocks and g.ret.startswith((RES + '<', OPT + '<')):
+            return self.rpaths(g, {(g.path, i): x for i, x in enumerate(args) if i < g.argc}, depth + 1)
+        return None
+
+    def apply_r(self, f, p, depth):
+        """outcomes of calling the Result-valued closure / function item f with the payload p"""
+        g = self.prog.fns.get(f[1]) if f[0] in ('closure', 'fnitem') else None
+        if g is not None and f[0] == 'closure':
+            m = {(g.path, 1): p}
+            for i, uv in enumerate(f[2]):
+                m[('upvar', g.path, i)] = uv
+            return self.rpaths(g, m, depth)
+        if g is not None and not g.impl_trait and g.blocks:
+            return self.rpaths(g, {(g.path, 0): p}, depth)
+        return self.opaque(('call', FN_CALLS[2], (f, ('tuple', (p,))), None))
+
+    def apply_v(self, f, args):
+        r = self.sl.apply_closure(f, tuple(args)) if f[0] in ('closure', 'fnitem') else None
+        if r is None:
+            return ('call', FN_CALLS[2], (f, ('tuple', tuple(args))), None)
+        return self.reduce(r)
+
+    def expand_atom_r(self, a, depth):
+        if a[0] == 'variant':
+            s, enum, names = a[1], a[2], frozenset(a[3])
+            want = None
+            if is_call(s, BRANCH) and len(s[2]) == 1:
+                want = 'ok' if names == {'Continue'} else ('err' if names == {'Break'} else None)
+                s = s[2][0]
+            elif enum in (RES, OPT) and names:
+                want = 'ok' if names <= {'Ok', 'Some'} else ('err' if names <= {'Err', 'None'} else None)
+            if want and depth <= 8:
+                return [at for at, k, p in self.expand_result(s, depth + 1) if k == want]
+        return self.expand_atom(a, depth)
+
+    @staticmethod
+    def consistent(atoms):
+        """the decisions without repetitions, or None when two of them contradict each other; only decisions about
+        the very same evaluation (same call sites) are compared, two calls that merely look alike may differ"""
+        seen, out = {}, []
+        for a in atoms:
+            if a[0] == 'res':
+                key, val = ('res', a[3]), frozenset((a[2],))
+            elif a[0] == 'variant':
+                key, val = ('variant', a[1], a[2]), frozenset(a[3])
+            elif a[0] == 'bool':
+                key, val = ('bool', a[1]), frozenset((a[2],))
+            else:
+                key, val = ('other', repr(a)), None
+            if key in seen:
+                if val is not None:
+                    seen[key] &= val
+                    if not seen[key]:
+                        return None
+                continue
+            seen[key] = val
+            out.append(a)
+        return out
+
+    def rpaths(self, fn, m, depth=0):
+        if depth > 8:
+            raise Giveup('result paths too deep at ' + fn.path)
+        out = []
+        for blocks, atoms, end in self.paths(fn, self.S, 0):
+            if end != 'ret':
+                raise Giveup('loop inside ' + fn.path)
+            rv = self.sub(self.value_at(fn, self.S, blocks, 0), m)
+            cases = [[]]
+            for a in atoms:
+                alts = self.expand_atom_r(self.sub_atom(a, m), depth)
+                cases = [c + x for c in cases for x in alts]
+                if len(cases) > 200:
+                    raise Giveup('decision too wide')
+            outs = self.expand_result(rv, depth)
+            for case in cases:
+                for a2, k, p in outs:
+                    c = self.consistent(case + a2)
+                    if c is not None:
+                        out.append((c, k, p))
+            if len(out) > 400:
+                raise Giveup('too many result paths in ' + fn.path)
+        return out
+
+
+def result_paths(prog, sl, fn):
+    """[(decisions, 'ok' | 'err', payload)] of fn (see ResultPaths); raises Giveup"""
+    return ResultPaths(prog, sl).rpaths(fn, {}, 0)
+
+
+def atom_str(a):
+    if a[0] == 'res':
+        return '%s is %s' % (vstr(a[1])[:70], a[2])
+    if a[0] == 'variant':
+        return '%s is %s' % (vstr(a[1])[:70], '|'.join(sorted(a[3])))
+    if a[0] == 'bool':
+        return '%s == %s' % (vstr(a[1])[:70], a[2])
+    return str(a)[:80]
